@@ -18,7 +18,7 @@
 (* intended behaviour is not determined (stick and Twig disagree, or the    *)
 (* fixed-point window is left) the status becomes "oom" and the case is     *)
 (* outside the model.                                                       *)
-EXTENDS Values, Sequences
+EXTENDS Values, Escape, Sequences
 
 NoE == [k |-> "none"]
 NoCur == [name |-> "", pos |-> 0]
@@ -139,6 +139,33 @@ RECURSIVE Eval(_, _), EvalList(_, _), Walk(_, _), WalkSeq(_, _), CallMacro(_, _,
           ForIter(_, _, _, _, _), WalkIf(_, _, _), ApplyFilters(_, _, _), EvalPairs(_, _), UseAll(_, _),
           RenderBlock(_, _, _)
 
+(* ---- auto-escaping (twig/escape.go): environments created by the Twig package ---- *)
+(* content type of a template name: the registered escaper named by its extension (".twig" stripped),
+   nothing for txt, html otherwise: no extension, unknown extension, inline source *)
+EscTypes == {"html", "html_attr", "js", "css", "url"}
+RECURSIVE LastDot(_, _)
+LastDot(bs, q) == IF q = 0 THEN 0 ELSE IF bs[q] = 46 THEN q ELSE LastDot(bs, q - 1)
+CtOfName(name) ==
+  IF \E q \in 1..Len(name) : SubSeq(name, q, q) \notin DOMAIN CharCode THEN "html"      \* inline source
+  ELSE LET b0 == S2B(name)
+           b == IF HasSuffixB(b0, S2B(".twig")) THEN SubSeq(b0, 1, Len(b0) - 5) ELSE b0
+           d == LastDot(b, Len(b))
+           ext == IF d = 0 THEN <<>> ELSE SubSeq(b, d + 1, Len(b)) IN
+       IF ext = S2B("txt") THEN "txt"
+       ELSE IF IsPrintable(ext) /\ ext # <<>> /\ B2S(ext) \in EscTypes THEN B2S(ext)
+       ELSE "html"
+(* the escaped form of a payload is written symbolically: <<1, code>> payload <<2>>; the harness substitutes
+   the escaper's actual output (the escapers themselves are C13's subject) *)
+CtCode(ct) == CASE ct = "html" -> 16 [] ct = "html_attr" -> 17 [] ct = "js" -> 18 [] ct = "css" -> 19 [] OTHER -> 20
+Mark(ct, b) == IF b = <<>> THEN <<>> ELSE <<1, CtCode(ct)>> \o b \o <<2>>
+AutoBytes(v, ct) ==
+  LET b == CoerceBytes(v) IN
+  IF BytesOOM(b) THEN b
+  ELSE IF ct \notin EscTypes THEN b                                  \* txt: no escaper
+  ELSE IF v.t = "safe" /\ ct \in v.types THEN b                      \* explicitly marked safe for this type
+  ELSE Mark(ct, b)
+DirectEscape(x) == x.k = "pipe" /\ x.name \in {"escape", "raw"}     \* an explicit escape/raw is never escaped again
+
 (* user callbacks registered by the harness (core environment)             *)
 (*   functions: _p(k) probe, id(x..) -> first argument, nul() -> null      *)
 (*   filters:   rec(v..) -> v, up(v) -> upper-cased string, wrap(v, w) -> w ~ v ~ w *)
@@ -152,10 +179,22 @@ CallFunc(name, args, S) ==
     [] name = "nul" -> <<Null, Cb(S, "func", name, args)>>
     [] OTHER -> <<ErrV, Fail(S)>>
 
-FilterKnown(name) == name \in {"rec", "up", "wrap"}
+FilterKnown(name) == name \in {"rec", "up", "wrap", "escape", "raw"}
 CallFilter(name, v, args, S) ==      \* <<value, S'>>
   LET S1 == Cb(S, "filter", name, <<v>> \o args) IN
   CASE name = "rec" -> <<v, S1>>
+    [] name = "escape" ->       \* twig: escape(v, type = 'html'); not a recording callback
+         IF ~S.auto THEN <<ErrV, Fail(S)>>
+         ELSE LET tb == IF args = <<>> THEN S2B("html") ELSE CoerceBytes(args[1]) IN
+              IF BytesOOM(tb) \/ ~IsPrintable(tb) THEN <<OOM, OomS(S)>>
+              ELSE LET ct == B2S(tb)  b == CoerceBytes(v) IN
+                   IF BytesOOM(b) THEN <<OOM, OomS(S)>>
+                   ELSE IF v.t = "safe" /\ ct \in v.types THEN <<v, S>>
+                   ELSE IF ct \notin EscTypes THEN <<v, S>>
+                   ELSE <<Safe(Str(Mark(ct, b)), {ct}), S>>
+    [] name = "raw" ->
+         IF ~S.auto THEN <<ErrV, Fail(S)>>
+         ELSE LET b == CoerceBytes(v) IN IF BytesOOM(b) THEN <<OOM, OomS(S)>> ELSE <<Safe(Str(b), EscTypes), S>>
     [] name = "up"  -> LET b == CoerceBytes(v) IN
                        IF BytesOOM(b) THEN <<OOM, OomS(S1)>> ELSE <<Str(AsciiUpper(b)), S1>>
     [] name = "wrap" -> LET b == CoerceBytes(v)
@@ -438,7 +477,8 @@ Walk(n, S) ==
     [] n.k = "comment" -> S
     [] n.k = "print" -> LET r == Eval(n.x, S) IN
                         IF ~Ok(r[2]) THEN r[2]
-                        ELSE LET b == CoerceBytes(r[1]) IN IF BytesOOM(b) THEN OomS(r[2]) ELSE Write(r[2], b)
+                        ELSE LET b == IF S.auto /\ ~DirectEscape(n.x) THEN AutoBytes(r[1], CtOfName(r[2].name)) ELSE CoerceBytes(r[1]) IN
+                             IF BytesOOM(b) THEN OomS(r[2]) ELSE Write(r[2], b)
     [] n.k = "if" -> WalkIf(n.branches, n.els, S)
     [] n.k = "for" ->
          LET r == Eval(n.x, S) IN
@@ -534,10 +574,17 @@ Walk(n, S) ==
 (* Entry point: Env.Execute(entry, writer, ctx)                            *)
 InitState(tpls, ctx, fuel) ==
   [tpls |-> tpls, outs |-> << <<>> >>, scopes |-> <<ctx>>, blocks |-> <<>>, cur |-> NoCur, name |-> "",
-   macros |-> EmptyScope, lmacros |-> EmptyScope, status |-> "ok", log |-> <<>>, fuel |-> fuel]
+   macros |-> EmptyScope, lmacros |-> EmptyScope, status |-> "ok", log |-> <<>>, fuel |-> fuel, auto |-> FALSE]
 
 Execute(tpls, entry, ctx) ==
   LET S0 == InitState(tpls, ctx, 6)
+      ld == Load(S0, S2B(entry)) IN
+  IF ~ld[1] THEN ld[3]
+  ELSE WalkModule(entry, FreshState(ld[3], entry, ctx))
+
+(* Env created by twig.New: auto-escaping on *)
+ExecuteTwig(tpls, entry, ctx) ==
+  LET S0 == [InitState(tpls, ctx, 6) EXCEPT !.auto = TRUE]
       ld == Load(S0, S2B(entry)) IN
   IF ~ld[1] THEN ld[3]
   ELSE WalkModule(entry, FreshState(ld[3], entry, ctx))
